@@ -528,9 +528,9 @@ class JoinModel:
         if ml:
             row_loop = ml[0]
             base = len(it.loops[row_loop].conds)
-            return "matched", row_loop, tuple(e.conds[base:])
+            return "matched", row_loop, self.meaningful(e.conds[base:])
         if self.probe_loop in loops:
-            inside = e.conds[len(it.loops[self.probe_loop].conds):]
+            inside = self.meaningful(e.conds[len(it.loops[self.probe_loop].conds):])
             guard = [c for c in inside if self._is_bucket_empty_test(c)]
             if guard:
                 return "unmatched-left", self.probe_loop, tuple(c for c in inside if c not in guard)
@@ -540,8 +540,8 @@ class JoinModel:
             lp = it.loops[L]
             if L != self.index_loop and lp.range is not None and lp.range[0] == const(0) and lp.range[2] == const(1) \
                     and self.rows_of(lp.range[1]) == "R" and not lp.parents:
-                return "sweep", L, tuple(e.conds[len(lp.conds):])
-        return "?", None, tuple(e.conds)
+                return "sweep", L, self.meaningful(e.conds[len(lp.conds):])
+        return "?", None, self.meaningful(e.conds)
 
     def _is_bucket_empty_test(self, c: Cond) -> bool:
         """Is c the statement `the probe key has no (non-empty) bucket`?"""
@@ -565,7 +565,11 @@ class JoinModel:
         return self.it.loops[L].node if L is not None else self.f.node
 
     def conds_inside(self, e: Event, L: int) -> Tuple[Cond, ...]:
-        return tuple(e.conds[len(self.it.loops[L].conds):])
+        return self.meaningful(e.conds[len(self.it.loops[L].conds):])
+
+    def meaningful(self, conds) -> Tuple[Cond, ...]:
+        """Drop the literals that only say `no raise happened` (negated raise guards)."""
+        return tuple(c for c in conds if c not in self.it.no_raise_lits)
 
     def events_in(self, L: int) -> List[Event]:
         return [e for e in self.it.events if L in e.loops]
